@@ -1554,6 +1554,10 @@ func init() {
 	isPresentFuncSignature[d] = ast.TBool
 	d[0] = ast.TFloat
 	isPresentFuncSignature[d] = ast.TBool
+	d[0] = ast.TDuration
+	isPresentFuncSignature[d] = ast.TBool
+	d[0] = ast.TTime
+	isPresentFuncSignature[d] = ast.TBool
 }
 
 func (isPresent) Signature() map[Domain]ast.ValueType {
